@@ -33,11 +33,12 @@ func (x *Exec) execInstr(fr *Frame, in ssa.Instruction, st *State) {
 	case *ssa.Alloc:
 		t := i.Type().(*types.Pointer).Elem()
 		ref := x.newRef(st)
-		p := &Place{Arr: heapKeyObj(t), Idx: []string{ref}, ElemT: t}
+		p := x.placeOf(V{T: i.Type(), S: ref})
 		x.storePlace(st, p, x.s.zero(t))
 		fr.vals[i] = V{T: i.Type(), S: ref}
 		if !i.Heap && x.specMode == 0 {
-			x.protected = append(x.protected, protEntry{key: heapKeyObj(t), t: t, ref: ref})
+			hk, ht := heapKeyForObj(t)
+			x.protected = append(x.protected, protEntry{key: hk, t: t, ht: ht, ref: ref})
 		}
 	case *ssa.BinOp:
 		fr.vals[i] = x.binop(fr, st, i.Op, x.value(fr, i.X), x.value(fr, i.Y), i.Type(), i.Pos())
@@ -840,23 +841,26 @@ func (x *Exec) sliceOp(fr *Frame, st *State, i *ssa.Slice) V {
 		x.assume(st.guard, fmt.Sprintf("(forall ((ci! Int)) (! (=> (and (<= 0 ci!) (< ci! (- %s %s))) (= (sat %s ci!) (sat %s (+ %s ci!)))) :pattern ((sat %s ci!))))", hi, lo, term, v.S, lo, term))
 		x.assume(st.guard, "(=> (and (= "+lo+" 0) (= "+hi+" (slen "+v.S+"))) (= "+term+" "+v.S+"))")
 		return V{T: i.Type(), S: term}
-	case *types.Pointer: // *[N]T -> slice over a fresh backing store aliasing is not modelled
+	case *types.Pointer: // *[N]T
 		arr := u.Elem().Underlying().(*types.Array)
 		hi := fmt.Sprint(arr.Len())
 		if i.High != nil {
 			hi = x.toMathInt(x.value(fr, i.High))
 		}
 		x.check(fr, st, i.Pos(), "slice-bounds", and("(<= 0 "+lo+")", "(<= "+lo+" "+hi+")", fmt.Sprintf("(<= %s %d)", hi, arr.Len())))
-		// Model: the array object's storage is viewed as slice storage with base = a
-		// fresh reference whose contents equal the array now. Writes through the slice
-		// are NOT reflected back into the array (noted).
 		p := x.placeOf(v)
+		if strings.HasPrefix(p.Arr, "S:") && len(p.Idx) == 1 && len(p.Path) == 0 {
+			// a standalone array object lives in slice storage: the slice aliases it exactly
+			return V{T: i.Type(), S: x.define("sl", "Slice", fmt.Sprintf("(mk_slice %s %s (- %s %s) (- %d %s))", p.Idx[0], lo, hi, lo, arr.Len(), lo))}
+		}
+		// an array embedded in a struct: the slice gets a copy of the current contents; writes
+		// through the slice are NOT reflected back into the struct field (noted).
 		cur := x.loadPlace(st, p)
 		base := x.newRef(st)
 		key := heapKeySlice(arr.Elem())
 		sarr := x.heapGet(st, key, arr.Elem())
 		x.heapSet(st, key, arr.Elem(), "(store "+sarr+" "+base+" "+cur.S+")")
-		x.note("slice of array pointer in %s: writes through the slice are not reflected in the array", funcKey(fr.fn))
+		x.note("slice of an array embedded in a struct in %s: writes through the slice are not reflected in the field", funcKey(fr.fn))
 		return V{T: i.Type(), S: x.define("sl", "Slice", fmt.Sprintf("(mk_slice %s %s (- %s %s) (- %d %s))", base, lo, hi, lo, arr.Len(), lo))}
 	}
 	x.note("unsupported slice operand %s", v.T)
